@@ -410,6 +410,9 @@ func VerifC06(p C06Params) *vsched.Scenario {
 		if r.Deadlock {
 			out = append(out, vsched.Issue{Clause: "no-deadlock", Disc: p.Kind, Detail: "blocked: " + strings.Join(r.Blocked, " | ")})
 		}
+		if r.StepLimit {
+			out = append(out, vsched.Issue{Clause: "module-can-still-be-stopped", Disc: "never-finishes", Detail: fmt.Sprintf("the execution did not finish within %d scheduler steps (a complete execution takes a few hundred to a few thousand): some thread keeps running without ever blocking", sc.MaxSteps)})
+		}
 		return out
 	}
 	return sc
